@@ -9,6 +9,14 @@ func (s *Session) extraObligations(prop string) ([]*Obligation, error) {
 	case "C01", "C02", "C03", "C04", "C05", "C07", "C12", "C19":
 		out = append(out, s.tableObligations(prop)...)
 	}
+	out = append(out, s.frameObligations(prop)...)
+	if prop == "C13" {
+		for _, ob := range s.frameObligations("C06") {
+			if hasProp(ob.Props, "C13") {
+				out = append(out, ob)
+			}
+		}
+	}
 	switch prop {
 	case "C20":
 		out = append(out, s.c20Obligations()...)
